@@ -1,0 +1,11 @@
+//go:build verif
+
+package router
+
+// VerifGate is called at named points of the router where a test may want to
+// hold a goroutine (scheduler gate for replaying interleavings found by the
+// model checker). It does nothing unless a test installs a function. It
+// exists only in builds with the "verif" tag.
+var VerifGate = func(point string) {}
+
+func verifGate(point string) { VerifGate(point) }
